@@ -310,6 +310,66 @@ theorem sct_findable_partial (ts : Nat) (ops1 ops2 : List Op) (cand : Leaf) :
   subst hje
   exact ⟨j, p, hi, hp, hver, huniq⟩
 
+/-! ## the leaf a client computes: `encLeaf` is injective, so the stored leaf decodes to the submitted entry -/
+
+theorem beEnc_inj (w a b : Nat) (ha : a < 256 ^ w) (hb : b < 256 ^ w) (h : beEnc w a = beEnc w b) : a = b := by
+  have := congrArg beDec h
+  rwa [beDec_beEnc w a ha, beDec_beEnc w b hb] at this
+
+/-- size limits of RFC 6962 §3.4: 64-bit timestamp, `opaque<1..2^24-1>` bodies, 32-byte key hash -/
+def EntryWf : Entry → Prop
+  | .x509 c => c.length < 2 ^ 24
+  | .precert k t => k.length = 32 ∧ t.length < 2 ^ 24
+
+/-- **The stored leaf decodes to exactly one (entry, timestamp).** The RFC 6962 `MerkleTreeLeaf`
+    encoding is injective on well-formed entries: equal leaf bytes mean the same certificate (or the
+    same issuer key hash and TBS) and the same timestamp. Hence the leaf hash a client computes from
+    the certificate and the SCT timestamp alone is the hash of the stored leaf **iff** the stored
+    leaf is the leaf of that certificate and timestamp (given no leaf-hash collision). -/
+theorem encLeaf_inj (e e' : Entry) (ts ts' : Nat) (he : EntryWf e) (he' : EntryWf e') (hts : ts < 2 ^ 64) (hts' : ts' < 2 ^ 64)
+    (h : encLeaf e ts = encLeaf e' ts') : e = e' ∧ ts = ts' := by
+  unfold encLeaf at h
+  simp only [List.append_assoc, List.cons_append, List.nil_append, List.cons.injEq, true_and] at h
+  have h8 : (beEnc 8 ts).length = (beEnc 8 ts').length := by simp [beEnc_length]
+  obtain ⟨h1, h2⟩ := List.append_inj h h8
+  have hts_eq : ts = ts' := beEnc_inj 8 ts ts' (by simpa using hts) (by simpa using hts') h1
+  refine ⟨?_, hts_eq⟩
+  cases e with
+  | x509 c =>
+    cases e' with
+    | x509 c' =>
+      simp only [List.cons_append, List.cons.injEq, true_and, List.append_assoc] at h2
+      have h3 : (beEnc 3 c.length).length = (beEnc 3 c'.length).length := by simp [beEnc_length]
+      obtain ⟨_, h5⟩ := List.append_inj h2 h3
+      have := List.append_cancel_right h5
+      rw [this]
+    | precert k' t' => simp at h2
+  | precert k t =>
+    cases e' with
+    | x509 c' => simp at h2
+    | precert k' t' =>
+      simp only [List.cons_append, List.cons.injEq, true_and, List.append_assoc] at h2
+      obtain ⟨hk, h4⟩ := List.append_inj h2 (by rw [he.1, he'.1])
+      have h3 : (beEnc 3 t.length).length = (beEnc 3 t'.length).length := by simp [beEnc_length]
+      obtain ⟨_, h5⟩ := List.append_inj h4 h3
+      have := List.append_cancel_right h5
+      rw [hk, this]
+
+/-- For X.509 entries the hypothesis `ValuesIdentify` of `sct_findable_partial` holds outright when the
+    identity hash is a function of the certificate (CTFE: SHA-256 of the leaf certificate's DER). -/
+theorem valuesIdentify_x509 (b : Backend) (idOf : Bytes → Bytes)
+    (hshape : ∀ x ∈ b.all, ∃ c ts, x.value = encLeaf (.x509 c) ts ∧ x.idHash = idOf c ∧ c.length < 2 ^ 24 ∧ ts < 2 ^ 64) :
+    ValuesIdentify b := by
+  intro x hx y hy hv
+  obtain ⟨c, ts, hxv, hxi, hc, hts⟩ := hshape x hx
+  obtain ⟨c', ts', hyv, hyi, hc', hts'⟩ := hshape y hy
+  rw [hxv, hyv] at hv
+  obtain ⟨he, _⟩ := encLeaf_inj (.x509 c) (.x509 c') ts ts' hc hc' hts hts' hv
+  cases he
+  rw [hxi, hyi]
+
+example : encLeaf (.x509 [0x30, 0x00]) 1234 = [0,0, 0,0,0,0,0,0,4,210, 0,0, 0,0,2, 0x30,0x00, 0,0] := by decide
+
 /-- A duplicate submission is answered from the stored leaf, so its SCT (built from `stored`) is the
     SCT of the original submission and nothing new is queued. -/
 theorem duplicate_returns_stored (b : Backend) (cand old : Leaf) (h : b.find cand.idHash = some old) :
